@@ -182,6 +182,17 @@ CHECKS.update({
         note='Trusted: lib/verif/reflang.py as independent reading of the language; listed unspecified corners (duplicate sources, non-literal addressed keywords, ...) are counted, not compared.'),
 })
 
+CHECKS.update({
+    'C16': dict(
+        category='exploration', design_ref='DESIGN.md §4 C16',
+        technique='bounded exhaustive enumeration of grammar-generated programs decorated with every legal trivia choice under a deviation bound, string bodies, long argument lists, all formatter configurations and the repository corpus through the real Formatter, judged by the independent reference parser',
+        text='Every program of a token-level grammar (depth <= 2, sequences <= 3) is decorated at every token gap with every legal trivia choice (0/1/2 non-default gaps), all string bodies <= 3/4 characters '
+             'in four quote styles, argument lists around max_line_length, all 4 096 configuration combinations and every corpus meson.build are formatted by the real mformat.Formatter; reflang '
+             'parses input and output and the trees must be equal modulo whitespace, comments, redundant commas, parentheses and the documented simplifications (only when they denote the same value), '
+             'comment sequences equal, format(format(x)) == format(x); the CLI part checks --check-only/--check-diff status against the bytes --inplace writes.',
+        note='Trusted: lib/verif/reflang.py as independent parser. Inputs the reference grammar rejects but the real parser accepts form a separate family with its own keys.'),
+})
+
 NOT_YET = {}
 
 
